@@ -774,6 +774,31 @@ func runPSI(line []byte, rec *recorder) {
 				rec.ev(M{"ev": "mvec", "class": "muxer-tables", "ok": true, "err": "nil", "n": n, "pat": ints(out[4:188]), "pmt": ints(out[192:376]), "patv": patv, "pmtv": pmtv})
 			}
 		}
+		// descriptor values whose encoding no reference covers (a local time offset whose time of change was never set, the zero time.Time;
+		// times before 1900): whatever bytes the descriptor writer picks for them, the section's lengths and CRC_32 cover exactly those bytes
+		// (structure only: event "mvecs", judged by C09)
+		for i := 0; i < 4; i++ {
+			w := &recWriter{}
+			mx := astits.NewMuxer(context.Background(), w)
+			var toc time.Time
+			if i%2 == 1 {
+				toc = time.Date(1850+r.intn(40), 3, 1, 0, 0, 0, 0, time.UTC)
+			}
+			lto := &astits.Descriptor{Tag: astits.DescriptorTagLocalTimeOffset, LocalTimeOffset: &astits.DescriptorLocalTimeOffset{Items: []*astits.DescriptorLocalTimeOffsetItem{
+				{CountryCode: lang(r), CountryRegionID: uint8(r.intn(64)), LocalTimeOffset: time.Hour, TimeOfChange: toc, NextTimeOffset: 2 * time.Hour}}}}
+			mx.AddElementaryStream(astits.PMTElementaryStream{ElementaryPID: 0x100, StreamType: astits.StreamTypeH264Video, ElementaryStreamDescriptors: []*astits.Descriptor{lto}})
+			mx.SetPCRPID(0x100)
+			var n int
+			var err error
+			if pn := safeCall(func() { n, err = mx.WriteTables() }); pn != nil {
+				err = fmt.Errorf("panic: %v", pn)
+			}
+			out := w.buf.Bytes()
+			if err != nil || n != 376 || len(out) != 376 {
+				continue // refusing such a value is fine
+			}
+			rec.ev(M{"ev": "mvecs", "class": "muxer-tables-unencodable-value", "ok": true, "pat": ints(out[4:188]), "pmt": ints(out[192:376])})
+		}
 	case "corrupt": // C09: every single-bit flip of a unit, byte substitutions, bursts <= 32 bits, truncations, extensions
 		for i := 0; i < sc.N; i++ {
 			k := sc.K
